@@ -466,6 +466,33 @@ def rule_TB7(rep, prog):
                     "the other, so dispatch_queue_get_qos_class disagrees with where the queue actually runs" % (v, pv, sorted(qv)), sample={"qos": v, "reported": pv})
 
 
+def rule_MP8(rep, prog):
+    rid = rep.rule("C18-MP8", "identity tests use the calling thread's identity: dispatch_assert_queue accepts without walking the thread frames only when the queue is "
+                   "drain-locked BY THIS THREAD; dispatch_apply on a global queue installs THAT queue as the frame's queue for the iterations the caller runs", floor=2)
+    fn = prog.fn("dispatch_assert_queue")
+    rep.saw(fn)
+    walk_ = calls_named(fn, "_dispatch_thread_frame_find_queue")
+    selfl = calls_named(fn, "_dq_state_drain_locked_by_self")
+    bad = None
+    for kind, inst, cx, path in paths.walk(fn, entry_point(fn), lambda i: False, avoid=lambda i: i in walk_):
+        if kind == "exit" and not any(cx.truth.get(c.id) is True for c in selfl):
+            bad = path
+    rep.require(rid, bool(walk_) and bad is None, fn.file + ":" + str(fn.d.get("line")), fn.name, "assert-queue-accepts-foreign-owner",
+                "dispatch_assert_queue returns without walking the caller's thread frames on a path that did not establish 'drain-locked by the calling thread' "
+                "(path %s): a thread outside the queue passes the assertion whenever some OTHER thread is draining it" % (bad,), sample={"self_tests": len(selfl)})
+    fn = prog.fn("dispatch_apply_f")
+    rep.saw(fn)
+    push = calls_named(fn, "_dispatch_thread_frame_push")
+    run_ = calls_named(fn, "_dispatch_apply_f")
+    ok = bool(push) and bool(run_)
+    for p_ in push:
+        ok = ok and any(root_of(fn, p_.ops[1]) == root_of(fn, r.ops[0]) and fn.dominates(p_, r) for r in run_)
+    rep.require(rid, ok, fn.file + ":" + str(fn.d.get("line")), fn.name, "apply-frame-queue-mismatch",
+                "dispatch_apply_f pushes a thread frame for a queue other than the one the iterations are run on (e.g. the caller's previous current queue): "
+                "iterations executed by the calling thread keep the caller's queue identity - dispatch_get_specific / the queue label / dispatch_assert_queue "
+                "disagree between iterations of one apply", sample={"pushes": len(push)})
+
+
 def run(rep, tier="quick", srcdir=None, only=None):
     prog, units = load(UNITS, tier, srcdir)
     rep.units = units
@@ -480,6 +507,8 @@ def run(rep, tier="quick", srcdir=None, only=None):
         rule_MP4(rep, prog)
     if want("C18-OD5"):
         rule_OD5(rep, prog)
+    if want("C18-MP8"):
+        rule_MP8(rep, prog)
     if want("C18-WM6"):
         rule_WM6(rep, prog)
     if want("C18-TB7"):
